@@ -22,7 +22,7 @@ ADDR = re.compile(r"0x[0-9a-fA-F]+")
 
 def strategy_turnstile(tier):
     n_max = 5 if tier == "quick" else 16
-    cfg = gen.Cfg(max_tasks=6, sync=True, ctx=("rec",), dag=False, ditem=True, itemvalue=True, prio="tiefree", convs=("call", "value"), early_result=False,
+    cfg = gen.Cfg(max_tasks=6, sync=True, ctx=("rec",), dag=False, ditem=True, itemvalue=True, prio="tiefree", convs=("call", "value"), early_result=False, tools=("dd", "agen", "amap", "retry", "cwc", "alru"),
                   shapes=("comb", "reentry", "tree", "stagger", "free", "chain"))
     return st.integers(2, n_max).flatmap(lambda n: st.fixed_dictionaries({
         "progs": st.lists(gen.programs(cfg), min_size=n, max_size=n),
@@ -33,7 +33,7 @@ def strategy_turnstile(tier):
 
 def strategy_free(tier):
     n_max = 5 if tier == "quick" else 16
-    cfg = gen.Cfg(max_tasks=6, sync=True, ctx=("rec",), dag=False, ditem=True, itemvalue=True, prio="tiefree", convs=("call", "value"), early_result=False,
+    cfg = gen.Cfg(max_tasks=6, sync=True, ctx=("rec",), dag=False, ditem=True, itemvalue=True, prio="tiefree", convs=("call", "value"), early_result=False, tools=("dd", "agen", "amap", "retry", "cwc", "alru"),
                   shapes=("comb", "reentry", "tree", "stagger", "free", "chain"))
     return st.integers(2, n_max).flatmap(lambda n: st.fixed_dictionaries({
         "progs": st.lists(gen.programs(cfg), min_size=n, max_size=n), "repeat": st.just(3 if tier == "quick" else 10), "mode": st.just("free")}))
